@@ -182,6 +182,37 @@ def check_slots(drv, images, layout, base, inputs, roles_expected, problems):
             problems.append(f"{dom}: data outside the slots of this domain's envelopes ({len(extra)} bytes)")
 
 
+def fit_envelope(drv, vendor, cls, soc, kconfig, role, size, delta, index):
+    """a plain envelope of the given class whose slot structure (the CBOR map stored in the slot) is exactly `size + delta` bytes long; the length
+    is read off the model's image (the structure is the first CBOR item of the slot, the rest is padding)"""
+    def make(pad):
+        desc = {"SUIT_Envelope_Tagged": {"suit-authentication-wrapper": {"SuitDigest": {"suit-digest-algorithm-id": "cose-alg-sha-256"}},
+                                         "suit-manifest": {"suit-manifest-version": 1, "suit-manifest-sequence-number": index % 100,
+                                                           "suit-manifest-component-id": ["INSTLD_MFST", {"RFC4122_UUID": {"namespace": vendor, "name": cls}}],
+                                                           "suit-reference-uri": "u" * pad}}}
+        c_ = suitcases.run_impl_create(desc, {})
+        return bytes.fromhex(c_["ok"]) if "ok" in c_ else None
+    pad = size - 300
+    for _ in range(8):
+        b = make(pad)
+        if b is None:
+            return None
+        req = {"op": "storage.boot", "files": [b.hex()], "base": 0, "soc": soc, "fs": {}}
+        if kconfig is not None:
+            req["kconfig"] = kconfig
+        m = drv.call(req)
+        if "ok" not in m:
+            return None
+        data = next((bytes.fromhex(h) for img in m["ok"].values() for _, h in img), None)
+        if data is None:
+            return None
+        _, used = ct.decode_at(data, 0)
+        if used == size:
+            return make(pad + delta)
+        pad += size - used
+    return None
+
+
 def work(args):
     seed, index, mode = args
     rng = random.Random(f"{seed}:{index}:c07")
@@ -280,6 +311,18 @@ def work(args):
                 return None
             inputs[0] = (b, v, c)
             expect_fail = "missing manifest component id"
+        elif mode == "exact-fit":
+            # the slot structure of the first envelope fills its slot exactly (valid), leaves one byte (valid) or exceeds it by one byte (refused)
+            role0 = chosen[0]
+            v, c = names[role0]
+            size = next(s_["size"] for s_ in layout["slots"] if s_["role"] == role0)
+            delta = [0, 0, -1, 1][index % 4]
+            b = fit_envelope(drv, v, c, soc, kconfig, role0, size, delta, index)
+            if b is None:
+                return None
+            inputs[0] = (b, v, c)
+            if delta > 0:
+                expect_fail = "envelope one byte larger than its slot"
         elif mode == "oversize":
             v, c = names[chosen[0]]
             b = envelope_for(seed, index * 20 + 18, v, c, rng, d, big=True)
@@ -414,7 +457,7 @@ def run(tier: str, seed: int) -> int:
         return finish(res, st, RULE, NOTE)
     signing.keys_dir()
     n = 170 if tier == "quick" else 5000
-    modes = ["valid"] * 6 + ["unknown-class", "duplicate-role", "no-component-id", "oversize", "two-classes-one-role"]
+    modes = ["valid"] * 5 + ["exact-fit", "unknown-class", "duplicate-role", "no-component-id", "oversize", "two-classes-one-role"]
     jobs = [(seed, i, modes[i % len(modes)]) for i in range(n)]
     outs = common.pmap(work, jobs, chunk=2)
     for job, o in zip(jobs, outs):
